@@ -3,7 +3,7 @@ import LlirModel.Drv.Core2Ops
 /-! Line-protocol descriptors of M-Core-3 functions.
     `core3.print <ret ty> <hexname> <params> <blocks>`
     ident: `N<hex>` | `I<num>`;  params: `-` or `<ty>~<ident>` joined by `|`;  blocks joined by `/`, a block is `<ident>^<inst>^...^<term>`;
-    inst: `<ident or _>:<row>:<args>` with args joined by `!` (or `-`): `T<ty>` | `P<ty>=<operand>` | `V<operand>` | `L<ident>` | `R` | `R<ty>=<operand>` | `H<operand>~<ident>&...` (phi incoming list) | `K<n>,<n>…` (index path) | `A` / `A<n>` (no / an alignment) | `G<ty>=<operand>&…` (typed index list);
+    inst: `<ident or _>:<row>:<args>` with args joined by `!` (or `-`): `T<ty>` | `P<ty>=<operand>` | `V<operand>` | `L<ident>` | `R` | `R<ty>=<operand>` | `H<operand>~<ident>&...` (phi incoming list) | `K<n>,<n>…` (index path) | `A` / `A<n>` (no / an alignment) | `F<i>,<i>…` (flag keywords by position in the row's list) | `G<ty>=<operand>&…` (typed index list);
     operand: `%<ident>` | `#<const descriptor>` | `@<hexname>` (a global variable or function of the module: M-Whole only) -/
 namespace Llir.Drv
 open Llir Llir.Types Llir.Core2 Llir.Core3
@@ -38,6 +38,8 @@ def parseArgD (s : String) : Option Arg :=
   | 'K' :: r => (if r.isEmpty then some [] else ((String.ofList r).splitOn ",").mapM (·.toNat?)).map .nums
   | ['G'] => some (.tyvals [])
   | 'G' :: r => ((String.ofList r).splitOn "&").mapM (fun (it : String) => parseTyOperand it) |>.map .tyvals
+  | ['F'] => some (.flags [])
+  | 'F' :: r => ((String.ofList r).splitOn ",").mapM (fun (x : String) => x.toNat?) |>.map .flags
   | ['A'] => some (.align none)
   | 'A' :: r => (String.ofList r).toNat?.map fun n => .align (some n)
   | 'H' :: r =>
